@@ -9,7 +9,16 @@ ASSUMPTIONS = ['the documented definition of "empty" in model.h: a component wit
 
 
 def returns_error_pair(n):
-    return n is not None and n.get('k') == 'Return' and n.get('c') and render(n['c'][0]).replace(' ', '') in ('std::make_pair(false,false)', 'std::pair(false,false)', '{false,false}')
+    if n is None or n.get('k') != 'Return' or not n.get('c'):
+        return False
+    if render(n['c'][0]).replace(' ', '') in ('std::make_pair(false,false)', 'std::pair(false,false)', '{false,false}'):
+        return True
+    # the same two `false` values in whatever two-member aggregate carries them (a pair, a small struct)
+    e = n['c'][0]
+    while e.get('k') in ('Construct', 'Cast', 'Temp', 'Bind', 'Paren') and len(e.get('c', [])) == 1:
+        e = e['c'][0]
+    kids = e.get('c', [])
+    return e.get('k') in ('InitList', 'Construct', 'Call') and len([x for x in kids if x.get('k') == 'Bool']) == 2 and all(not x.get('v') for x in kids if x.get('k') == 'Bool') and len(kids) <= 3
 
 
 def run(F, rep):
@@ -114,8 +123,18 @@ def run(F, rep):
         okr = e is not None and any(returns_error_pair(x) for x in walk(e))
     rep.check(okr, 'C19.I1', 'unrelated-components', pp.where(rel[0]) if rel else pp.where(), 'components that are neither siblings nor parent/child no longer yield the failure pair', 'returns (false,false)')
     # relations -> flags
-    rc_first = [b for b in pp.walk() if b.get('k') == 'Bin' and b.get('op') == '=' and render(b['c'][0]) == 'pair.first']
-    rc_second = [b for b in pp.walk() if b.get('k') == 'Bin' and b.get('op') == '=' and render(b['c'][0]) == 'pair.second']
+    def _member_pos(m_):
+        """position of the member in its two-member aggregate: first/second of a pair, or the declaration order of a struct"""
+        if m_.get('n') in ('first', 'second'):
+            return ('first', 'second').index(m_['n'])
+        q_ = (m_.get('q') or '').rsplit('::', 1)[0]
+        rec_ = F.records.get(q_)
+        names_ = [x['n'] for x in rec_['fields']] if rec_ else []
+        return names_.index(m_['n']) if m_.get('n') in names_ else None
+    flag_asg = [b for b in pp.walk() if b.get('k') == 'Bin' and b.get('op') == '=' and b['c'][0].get('k') == 'Member' and b['c'][0].get('c') and b['c'][0]['c'][0].get('k') == 'Ref' and b['c'][0]['c'][0].get('dk') == 'local'
+                and render(b['c'][1]) == 'true']
+    rc_first = [b for b in flag_asg if _member_pos(b['c'][0]) == 0]
+    rc_second = [b for b in flag_asg if _member_pos(b['c'][0]) == 1]
     f1 = rc_first and any(('areEntitiesSiblings' in c or 'isEntityChildOf(componentOfVariable, componentOfEquivalentVariable)' in c) and t for c, t in (ff(pp).rendered_conds_at(rc_first[0]) or set()))
     f2 = rc_second and any('isEntityChildOf(componentOfEquivalentVariable, componentOfVariable)' in c and t for c, t in (ff(pp).rendered_conds_at(rc_second[0]) or set()))
     rep.check(bool(f1) and bool(f2), 'C19.I1', 'relation-to-flag', pp.where(), 'public is not tied to sibling/child-of-other and private to parent-of-other any more', 'public: sibling or child; private: parent')
